@@ -202,6 +202,10 @@ class OrderTaint:
                     return None  # sink, reported at the argument
                 if f.id == 'next':
                     return OSEQ if any(taint(a) for a in c.args) else None
+            if isinstance(f, ast.Attribute) and f.attr == 'fromkeys' and isinstance(f.value, ast.Name) and f.value.id == 'dict' and \
+                    prog.resolve_name(fn.module, 'dict') is None and 'dict' not in env.vars and c.args:
+                # dict.fromkeys(keys, v): a dict whose insertion order is the iteration order of `keys`
+                return ODICT if taint(c.args[0]) else None
             if isinstance(f, ast.Attribute):
                 if f.attr == 'join':
                     return None  # sink, reported at the argument
@@ -399,6 +403,9 @@ class OrderTaint:
                     sink(n, k, f'{fname}() of an order-dependent value')
                 elif is_builtin and fname == 'next':
                     sink(n, k, 'next() picks the first element of an unordered iteration')
+                elif isinstance(f, ast.Attribute) and f.attr == 'fromkeys' and isinstance(f.value, ast.Name) and f.value.id == 'dict' \
+                        and prog.resolve_name(fn.module, 'dict') is None and 'dict' not in env.vars:
+                    ok(n, k, 'dict.fromkeys() carries the order on as insertion order (the dict is tracked)')
                 elif isinstance(f, ast.Attribute) and f.attr == 'join':
                     sink(n, k, 'joined into a string')
                 elif isinstance(f, ast.Attribute) and f.attr in ('append', 'extend', 'insert', 'add', 'update',
